@@ -1,6 +1,6 @@
 import Driver.Proto
 import ScrapliModel.SshCfg
-namespace Driver
+namespace Driver.C14
 open Scrapli Scrapli.SshCfg
 
 namespace C14
@@ -92,4 +92,4 @@ def handleC14 : List String → String
     | _, _, _, _, _, _, _, _ => "bad-op"
   | _ => "bad-op"
 
-end Driver
+end Driver.C14
